@@ -16,13 +16,30 @@ package main
 //@   ensures r == ceil8(count)
 //@   ensures r >= count && r % 8 == 0 && r - count <= 7
 //
+// roundedCounter is a monitor: total and value are only touched under c.lock, and whenever the lock is free the
+// published value is the true total rounded up to the next multiple of 8 (so every concurrent reader, Write included,
+// sees a correctly rounded count). Counts below 2^63 are assumed (the 64-bit counter is not proved against wrap-around).
+//@ invariant roundedCounter(c) guard lock [C19]: c.value == ceil8(c.total)
+//@   clause {never-low} c.value >= c.total && c.value % 8 == 0 && c.value - c.total <= 7
+//@   assumes c.total < 1<<62
+//@   protects roundedCounter.total, roundedCounter.value
+//@ guarded roundedCounter.total by lock
+//@ guarded roundedCounter.value by lock
+//
+// rcT0: the true count found when Inc acquired the lock; Inc counts the event exactly once.
+//@ ghost var rcT0 uint64
 //@ func (c *roundedCounter) Inc()
-//@   props C19
+//@   props C19, C20
 //@   model bv
-//@   requires c != nil && c.value == ceil8(c.total) && c.total < 1<<63
-//@   ensures c.total == old(c.total) + 1
-//@   ensures c.value == ceil8(c.total)
-//@   ensures c.value >= c.total && c.value % 8 == 0 && c.value - c.total <= 7
+//@   requires c != nil
+//@   after call Lock ghost rcT0 = c.total
+//@   ensures c.total == rcT0 + 1 && c.value == ceil8(c.total)
+//
+//@ func (c *roundedCounter) Write(m *dto.Metric) (err error)
+//@   props C19, C20
+//@   model bv
+//@   requires c != nil && m != nil
+//@   ensures err == nil
 //
 // ---- matching state (C02, C03) ----
 // SnowflakeHeap: heap.Interface laws proved for the real methods.
@@ -45,21 +62,21 @@ package main
 //@   ensures {fewest-clients-sort-first} r == (sh[i].clients < sh[j].clients)
 //
 //@ func (sh SnowflakeHeap) Swap(i int, j int)
-//@   props C03, C02
+//@   props C03, C02, C04
 //@   requires shIndexed(sh) && 0 <= i && i < len(sh) && 0 <= j && j < len(sh)
 //@   ensures shIndexed(sh)
 //@   ensures sh[i] == old(sh[j]) && sh[j] == old(sh[i])
 //@   ensures forall k int :: 0 <= k && k < len(sh) && k != i && k != j ==> sh[k] == old(sh[k])
 //
 //@ func (sh *SnowflakeHeap) Push(s interface{})
-//@   props C03, C02
+//@   props C03, C02, C04
 //@   requires sh != nil && shIndexed(*sh) && tagis(s, *Snowflake) && unbox(s, *Snowflake) != nil && allocated(unbox(s, *Snowflake)) && !shMember(*sh, unbox(s, *Snowflake))
 //@   requires forall i int :: 0 <= i && i < len(*sh) ==> (*sh)[i] != unbox(s, *Snowflake)
 //@   ensures shIndexed(*sh) && len(*sh) == old(len(*sh)) + 1 && (*sh)[old(len(*sh))] == unbox(s, *Snowflake)
 //@   ensures forall k int :: 0 <= k && k < old(len(*sh)) ==> (*sh)[k] == old((*sh)[k])
 //
 //@ func (sh *SnowflakeHeap) Pop() (r interface{})
-//@   props C03, C02
+//@   props C03, C02, C04
 //@   requires sh != nil && shIndexed(*sh) && len(*sh) > 0
 //@   ensures shIndexed(*sh) && len(*sh) == old(len(*sh)) - 1
 //@   ensures tagis(r, *Snowflake) && unbox(r, *Snowflake) == old((*sh)[len(*sh)-1]) && unbox(r, *Snowflake).index == -1
@@ -80,6 +97,7 @@ package main
 //@   clause {no-private-object-is-filed} forall s *Snowflake :: s.inHeap != nil ==> allocated(s)
 //
 //@ ghost field Snowflake.registered bool
+//@ ghost var wasQueued bool
 //@ ghost var poolLen int
 //
 // matchSnowflake: NAT compatibility table, refusal only when the eligible pool is empty, fewest clients first.
@@ -112,6 +130,9 @@ package main
 //@   props C03, C02, C04
 //@   flag concurrent paths nosafety lifetime=After paired-send=RequestOffer paired-recv=ClientOffers
 //@   requires ctx != nil && request != nil && snowflake != nil && snowflake.registered && snowflake.natType == request.natType && snowflake.id == request.id && request.offerChannel != nil
+//@   at entry ghost wasQueued = false
+//@   after call Lock ghost wasQueued = (snowflake.index != -1)
+//@   at call close assert {only-a-poll-nobody-matched-is-closed} wasQueued
 //@   at call Remove assert {removed-from-the-pool-it-was-filed-in} held(&ctx.snowflakeLock) && ((request.natType == NATUnrestricted) <==> (unbox(arg0, *SnowflakeHeap) == ctx.snowflakes)) && unbox(arg0, *SnowflakeHeap) == snowflake.inHeap && arg1 == snowflake.index
 //@   ensures {answers-its-poll-exactly-once} sends(request.offerChannel) + closes(request.offerChannel) == old(sends(request.offerChannel)) + old(closes(request.offerChannel)) + 1
 //
@@ -209,3 +230,17 @@ package main
 //@   props C14
 //@   requires i != nil && i.ctx != nil && w != nil && r != nil
 //@   ensures {exactly-one-response-action} calls(WriteHeader) + calls(Write) == 1
+//
+// ---- lock discipline (C20) ----
+//@ guarded BrokerContext.idToSnowflake by snowflakeLock
+//@ guarded Metrics.countryStats by lock
+//@ guarded Metrics.clientRoundtripEstimate by lock
+//@ guarded Metrics.proxyIdleCount by lock
+//@ guarded Metrics.clientDeniedCount by lock
+//@ guarded Metrics.clientRestrictedDeniedCount by lock
+//@ guarded Metrics.clientUnrestrictedDeniedCount by lock
+//@ guarded Metrics.clientProxyMatchCount by lock
+//@ guarded Metrics.proxyPollWithRelayURLExtension by lock
+//@ guarded Metrics.proxyPollWithoutRelayURLExtension by lock
+//@ guarded Metrics.proxyPollRejectedWithRelayURLExtension by lock
+//@ guarded bridgeListHolder.bridgeInfo by accessBridgeInfo
